@@ -165,7 +165,11 @@ def lookup (c : Core) (target : RouteId) (valInt : Bool) : Option RouteId :=
 /-! ### goroutines -/
 
 inductive Kind where
-  | request (target : RouteId) (valInt : Bool)
+  /-- `gone`: the request's context is already done when it is handed to `ServeHTTP` (client went away, deadline
+      expired in the accept queue): it passes `serve.entry`, `Freeze()`, `serve.frozen` like every request — the
+      first such request ends the configuration phase —, then `Next()` stops in front of the first handler; what it
+      is answered is not observed -/
+  | request (target : RouteId) (valInt : Bool) (gone : Bool := false)
   | freeze
   | warmup
   | register (r : RouteId)
@@ -202,6 +206,8 @@ inductive Out where
   | mut (r : Res)
   | hit (h : Option RouteId)
   | url (u : UrlRes)
+  /-- `ServeHTTP` has returned for a request whose context was done on arrival (no answer is looked at) -/
+  | gone
   /-- an unexpected panic (never produced by the model; the oracle rejects it) -/
   | crash
   deriving DecidableEq, Repr
@@ -238,7 +244,7 @@ def vis (s : St) (st : Status) : Vis :=
 
 /-- `Freeze()` has returned in this goroutine -/
 def afterFreeze : Kind → Status
-  | .request _ _ => .atFrozen
+  | .request _ _ _ => .atFrozen
   | _ => .finished
 
 def setStatus (s : St) (i : Nat) (st : Status) : St := { s with status := s.status.set i st }
@@ -261,8 +267,8 @@ def callFreeze (s : St) (i : Nat) (k : Kind) : St :=
 /-- goroutine `i` (of kind `k`, in status `st`) runs until its next yield point, blocks or finishes -/
 def stepActor (kinds : List Kind) (s : St) (i : Nat) (k : Kind) (st : Status) : St × Out :=
   match st, k with
-  | .start, .request _ _ => (setStatus s i .atEntry, .none)
-  | .atEntry, .request _ _ => (callFreeze s i k, .none)
+  | .start, .request _ _ _ => (setStatus s i .atEntry, .none)
+  | .atEntry, .request _ _ _ => (callFreeze s i k, .none)
   | .start, .freeze => (callFreeze s i k, .none)
   | .start, .warmup =>
     (match s.core.wpc with
@@ -297,7 +303,7 @@ def stepActor (kinds : List Kind) (s : St) (i : Nat) (k : Kind) (st : Status) : 
   | .inWarmup, _ =>
     (let s' := { s with core := s.core.step .warmupStep }
      if s.core.wpc = .compiled then setStatus (wakeW s') i .finished else s', .none)
-  | .atFrozen, .request t v => (setStatus s i .finished, .hit (lookup s.core t v))
+  | .atFrozen, .request t v g => (setStatus s i .finished, if g then .gone else .hit (lookup s.core t v))
   | _, _ => (s, .none)
 
 /-- one scheduler step: release goroutine `i` -/
